@@ -51,7 +51,10 @@ ORIENT_T = ORIENT14 + [
     (-1 / S2, -1 / S2, 0.0), (0.0, -1 / S2, -1 / S2), (-1 / S3, -1 / S3, -1 / S3), (0.6, 0.8, 0.0), (0.0, 0.28, 0.96),
     G.unit((1e-4, 1.0, 0.0)), G.unit((-0.7, 0.1, 0.3)), (2 / 3, 2 / 3, 1 / 3),
 ]
-OFFSETS = [(0.0, 0.0, 0.0), (5.0, -3.0, 2.0), (1234.5, -987.25, 456.75)]
+OFFSETS = [(0.0, 0.0, 0.0), (5.0, -3.0, 2.0), (1234.5, -987.25, 456.75),
+           # far from the origin (used with SHORT frusta: a compartment of a finely sampled neurite somewhere in a large volume)
+           (8192.0, -4096.0, 2048.0), (65536.0, 32768.0, -16384.0)]
+FAR_SCALES = (1 / 32, 1 / 256)
 
 RAD_Q = (0.25, 0.5, 0.8, 1.0, 1.25, 2.0, 3.5)
 HGT_Q = (0.1, 0.3, 0.5, 0.8, 1.0, 1.5, 2.0, 3.0, 5.0, 8.0)
@@ -388,7 +391,9 @@ def check_sphere_frustum(case, R):
                 with _FastMC(), _Rng(ans, seed) as rng, _Spy() as spy:
                     ok, v = R.impl(nm, fn)
                 if ok:
-                    _cmp(R, v, want, scale, f"volume:sphere-frustum:{op}", where(nm), f"volume:sphere-frustum:{op}:{path}")
+                    # far placements: the end points c + h*u are rounded to float64 at |c| ~ 1e4..1e5, i.e. h itself carries ~1e-8 relative
+                    _cmp(R, v, want, scale, f"volume:sphere-frustum:{op}", where(nm), f"volume:sphere-frustum:{op}:{path}" + (":far-short" if ci >= 3 else ""),
+                         **({"rel": 1e-6} if ci >= 3 else {}))
                     if mi == 0 and nm != "frustum.union(sphere)":
                         _retain(R, nm, obj, want, scale)
                 if op == "intersect":
@@ -484,6 +489,59 @@ def _build_query(q, how=CONTAINERS[0]):
                 G.vol_sphere_frustum(r_near, r_far, h, "min" if op == "intersect" else "max"), max(r1, r2) ** 2 * max(h, r_near))
     finally:
         P.scramble()  # the caller goes on using its buffer for something else
+
+
+INT_DTYPES = ("int16", "int32", "int64", "uint16", "python ints")
+INT_QUERIES = [
+    # solids on the voxel grid (integer coordinates, as taken from an image volume), spans beyond sqrt(2^15) and sqrt(2^31) / 256
+    ("frustum", 50.0, 20.0, 300, 2), ("frustum", 20.0, 50.0, 200, 0),
+    ("ss", "intersect", 150.0, 120.0, 200, 0), ("ss", "union", 150.0, 120.0, 200, 1), ("ss", "union", 90.0, 30.0, 400, 2),
+    ("sf", "intersect", 100.0, 40.0, 300, 0, 2), ("sf", "union", 100.0, 40.0, 300, 1, 2), ("sf", "intersect", 120.0, 120.0, 190, 0, 0),
+]
+
+
+def check_int_containers(case, R):
+    """Positions handed over as INTEGER arrays (voxel coordinates): narrow integer arithmetic on differences / squared lengths must
+    not leak into the volumes."""
+    qi, dt = int(case[1]), case[2]
+    q = INT_QUERIES[qi]
+    R.state("int-containers", qi, dt)
+    from swcgeom.utils import VolFrustumCone, VolSphere
+
+    base = (300, 500, 200)
+
+    def P(v):
+        v = [int(a) for a in v]
+        return tuple(v) if dt == "python ints" else np.array(v, dtype=dt)
+
+    def along(ax, L):
+        e = [0, 0, 0]
+        e[ax] = L
+        return tuple(b + d for b, d in zip(base, e))
+
+    def build_():
+        if q[0] == "frustum":
+            _, r1, r2, h, ax = q
+            return VolFrustumCone(P(base), r1, P(along(ax, h)), r2), G.vol_frustum(r1, r2, float(h)), max(r1, r2) ** 2 * h
+        if q[0] == "ss":
+            _, op, r1, r2, d, ax = q
+            a, b = VolSphere(P(base), r1), VolSphere(P(along(ax, d)), r2)
+            return getattr(a, op)(b), G.vol_two_spheres(r1, r2, float(d), "min" if op == "intersect" else "max"), max(r1, r2) ** 3
+        _, op, r1, r2, h, end, ax = q
+        c1, c2 = base, along(ax, h)
+        r_near, r_far = (r1, r2) if end == 0 else (r2, r1)
+        sp = VolSphere(P(c1 if end == 0 else c2), r_near)
+        return getattr(sp, op)(VolFrustumCone(P(c1), r1, P(c2), r2)), G.vol_sphere_frustum(r_near, r_far, float(h), "min" if op == "intersect" else "max"), max(r1, r2) ** 2 * max(h, r_near)
+
+    ok, b = R.impl("construct", build_)
+    if not ok:
+        return
+    obj, want, scale = b
+    with _FastMC(), _Rng(FIXED[:4], dg("c13i", case)):
+        ok, v = R.impl("get_volume", obj.get_volume)
+    if ok:
+        _cmp(R, v, want, scale, "volume:int-containers", lambda: f"{q}, positions given as {dt} voxel coordinates", f"volume:int-containers:{q[0]}:{dt}")
+    R.outcome(qi, dt)
 
 
 def check_containers(case, R):
@@ -654,6 +712,14 @@ def spaces(tier, seed):
                     continue
                 yield ["sphere-frustum", r1 * s, r2 * s, h * s, 12, 1, tier]
 
+    def gen_sf_far():
+        base = [t_ for t_ in triples if t_ not in NEARCYL]
+        for s in FAR_SCALES:
+            for r1, r2, h in (base[::3] if quick else base):
+                for ci in (3, 4):
+                    for oi in (12, 0):
+                        yield ["sphere-frustum", r1 * s, r2 * s, h * s, oi, ci, tier]
+
     def gen_hist():
         k = len(QUERIES)
         for i in range(k):
@@ -694,9 +760,14 @@ def spaces(tier, seed):
                          "triples": len(triples), "ends": 2, "rng_menu": "real generator (seeded) + parallel-to-axis + 4 fixed answers"
                          + ("" if quick else " + 2 more fixed + almost-parallel + three parallel answers in a row"),
                          "reference_cases_reached": paths, **common}),
+        Space.of("sphere-frustum-far-short", gen_sf_far, check_sphere_frustum,
+                 bounds={"offsets": [list(OFFSETS[3]), list(OFFSETS[4])], "size_scales": list(FAR_SCALES), "orientations": 2, "ends": 2,
+                         "note": "short frusta (extent 0.003 .. 0.25) far from the origin: the two ends are closer than any tolerance relative to |coordinate|"}),
         Space.of("position-containers", lambda: (["containers", qi, how] for qi in range(len(QUERIES)) for how in CONTAINERS), check_containers,
                  bounds={"objects": len(QUERIES), "containers": list(CONTAINERS),
                          "note": "the caller's buffer is overwritten after each constructor returns: a solid is the one described when it was built"}),
+        Space.of("integer-position-containers", lambda: (["int", qi, dt] for qi in range(len(INT_QUERIES)) for dt in INT_DTYPES), check_int_containers,
+                 bounds={"solids": [list(q) for q in INT_QUERIES], "dtypes": list(INT_DTYPES)}),
         Space.of("query-histories", gen_hist, check_history,
                  bounds={"objects": len(QUERIES), "sequence_length": "2" if quick else "2 and 3", "rounds": 2,
                          "note": "all objects built first, queried in order, then all queried again under other rand answers"}),
